@@ -23,7 +23,10 @@ MANIFEST = dict(
               'separation, and the census rows themselves) + five fail-closed ast translators with a semantic normalisation '
               'pre-pass (copy census with source fields and flows through the constructor specialised to the call, export '
               'reads, Keyvalues +/+= append sites, math.py operator write/return origins, collapse_one write/enter/copy '
-              'sites) + oracle search incl. a boundary-value probe of every scalar field',
+              'sites; conditional copy expressions classified branch by branch, the weaker row re-computed in the kernel; '
+              'copy.deepcopy / pickle of Keyvalues censused through the generic copy protocol) + oracle search incl. a '
+              'boundary-value probe of every scalar field and an empty-container probe of every container field; every call '
+              'into the implementation under a deadline (a hang or an unexpected exception is a failing input)',
     text='Theorems in Props/C09.v (no axioms). Independence: in a heap of mutable/immutable nodes, if no mutable location '
          'is reachable both from object a and from the roots a mutator holds, no sequence of stores/allocations through '
          'those roots changes the unfolding (export) of a, and vice versa; a certificate checker for finite heaps is sound '
@@ -44,24 +47,34 @@ MANIFEST = dict(
          'at a stabilised depth: c09_mobs_eq_decided); both on one heap + the census obligations = the whole property for '
          'that real pair inside the kernel (c09_real_copy_complete_and_independent). Keyvalues + / +=: pure, complete and every '
          'appended child a fresh copy iff the receiver and the copied-flag of each append site (one per branch) are right. '
+         'Conditional rows (c09_cond_row_fresh_iff, c09_cond_rows_checked): a field built by `A if t else B` / `x and B` / '
+         'an if/else gets the weaker of the two branch rows, which is fresh iff both branches are; shared-when-empty is '
+         'complete yet not independent (c09_shared_when_empty_refuted). Typed nodes (c09_typed_nodes_checked, '
+         'c09_labels_of_a_class_same_mask): the census label of every exported node is derived in the kernel from its '
+         'run-time type name and the attribute names read are validated against the census. '
          'Operators: a run none of whose stores is tagged with an operand origin leaves every pre-existing object '
          'unchanged and returns only new objects; in-place operators leave everything separated from the receiver '
          'unchanged. Instancing: a collapse_one run with no template-tagged store or stored value leaves the template '
          'unchanged. Tie (every run): translators regenerate the five Gen tables from vmf.py, keyvalues.py, math.py, '
-         'instancing.py; 128 named instance obligations (per census label: copy_covers_fields, copy_fresh_mutables, '
-         'copy_sources_match, copy_args_lossless, copy_export_equal, export_reads_are_fields; per kv branch; per operator '
-         'family; collapse_*; table level incl. all_classes_complete_and_independent); census vs run-time identities, '
+         'instancing.py; 142 named instance obligations (per census label — 19 labels incl. Keyvalues_deepcopy / _pickle: '
+         'copy_covers_fields, copy_fresh_mutables, copy_sources_match, copy_args_lossless, copy_export_equal, '
+         'export_reads_are_fields; per kv branch; per operator family; collapse_*; table level incl. '
+         'all_classes_complete_and_independent, conditional_rows_are_joins, census_labels_of_a_class_agree); census vs run-time identities, '
          'argument flows vs the real constructors on boundary values, export reads vs traced attribute reads, operator '
          'rows vs real calls, kv model vs implementation; exported real object graphs certified in the kernel (separation; '
          'census rows: independence premises and completeness premises). Search: identity walk, export equality modulo IDs, random in-place mutation histories on either '
-         'side, boundary value of every scalar field then copy + export, instance collapse with proxies followed by edits '
+         'side, boundary value of every scalar field then copy + export (copy(), copy.copy, copy.deepcopy, pickle), every '
+         'container field emptied, copied, then filled on either side, instance collapse with proxies followed by edits '
          'of the target, operand snapshots for every operator.',
     note='Trusted: Coq kernel + vm_compute; the translators\' classification of Python expressions into census rows (each '
          'cross-checked dynamically: census_vs_runtime, flows_vs_runtime, export_reads_vs_runtime, op_census_vs_runtime, '
          'kv_add correspondence; the independence reading of the copy census is additionally decided in the kernel on '
          'sampled real heaps: certificate:census_rows_hold, and its completeness reading with the export masks of all '
-         'labelled nodes: certificate:export_rows_hold — the census label and the census-ordered field list of every '
-         'exported node come from checks/c09.py::export_rows_heap (trusted glue), the masks are computed in the kernel); the normalisation pre-pass of the copy translator (alias '
+         'labelled nodes: certificate:export_rows_hold — checks/c09.py::export_rows_heap only reports (location, type name, '
+         'attribute names read) per node; label, field order, arity and masks are derived / validated in the kernel: '
+         'certificate:typed_nodes_validated; trusted there: type(o).__name__, getattr, the walker); CPython\'s generic copy '
+         'protocol for a slot class without hooks (Keyvalues_deepcopy / _pickle rows; decided on real heaps by the row '
+         'certificates); the normalisation pre-pass of the copy translator (alias '
          'locals, loop-append = comprehension, single-return helpers inlined, guard clause = if/else ...: each rewrite is '
          'exact by construction, unknown shapes stay fail-closed); the flow modes as value functions (flow_fun); '
          'and the reading of a census row as its heap meaning (how_sem / how_complete / tstep / cstep: '
@@ -160,6 +173,12 @@ def phase(ck: Ck, name: str, fn: Any, *args: Any) -> None:
     except ImplHang as e:
         ck.obligation(f'phase:{name}', False, f'a call into the implementation (or coqc) did not return: {e}')
         ck.tie_broken.append(f'phase {name} did not finish')
+    except Exception as e:       # copy() / export / an operator raised on a generated object
+        import traceback
+        where = traceback.extract_tb(e.__traceback__)[-1]
+        ck.obligation(f'phase:{name}', False, f'a call into the implementation raised {type(e).__name__}: {e} '
+                                              f'(at {Path(where.filename).name}:{where.lineno} in {where.name})')
+        ck.tie_broken.append(f'phase {name}: the implementation raised {type(e).__name__}')
 
 
 # ------------------------------------------------------------------------------------------------ one copy case
@@ -302,7 +321,7 @@ def _run_copy_cases(jobs: list[tuple]) -> list[tuple[list[dict], int]]:
 
 def search_copies(ck: Ck) -> None:
     from harness import c09_util as U
-    n = _budget(ck, 1100, 40000)
+    n = _budget(ck, 1000, 40000)
     cases: list[tuple[str, int, str]] = []
     if CORPUS.exists():
         for p in sorted(CORPUS.glob('*.json')):
@@ -1560,6 +1579,8 @@ def run(ck: Ck) -> None:
                'read traces of generated objects of every kind; boundary cases: every str/int/float/bool/Optional/flag/enum/Vec4 '
                'data field of every map object reachable from a generated object set to each boundary value of its type '
                '(falsy values, the values a constructor flag maps to, values no editor writes), then copied and exported; '
+               'empty-container cases: every list/dict/set/array field of every reachable map object emptied in place, the '
+               'object copied, the container filled again on either side; '
                'row certificates: (census label, generator seed) heaps of original + copy decided in the kernel against the '
                'generated census; distinct by full case tuple')
     ck.trusted.append('harness/c09_util.py object-graph walker (slots, __dict__, containers); the VMF back pointer is context')
@@ -1573,6 +1594,9 @@ def run(ck: Ck) -> None:
     ck.assumptions.append('argument flows: a flow mode means its value function (flow_fun: ident/presence = the value, ordefault = the '
                           'value when truthy, guard/derived = anything); the specialisation of the constructor to the call is '
                           'compared with the real constructor by flows_vs_runtime on boundary values')
+    ck.assumptions.append('copy.deepcopy / pickle of a slot class that defines none of the copy-protocol hooks (Keyvalues today: checked '
+                          'by the translator, fail-closed) builds a new object and fills every slot with a deep copy / the unpickled '
+                          'value of the original slot (CPython copyreg); the resulting rows are decided on real heaps by the row certificates')
     ck.assumptions.append('export is a function of the data fields it reads (export_reads census, static over-approximation '
                           'of the traced reads); IDs and the map back pointer are masked in the export comparison')
     ck.assumptions.append('the map back pointer (Entity.map, Solid.map, Side.map, VisGroup.vmf ...) is context: mutations '
@@ -1720,8 +1744,11 @@ def run(ck: Ck) -> None:
         ck.explain('instance:all_sources_present')
         ck.explain('instance:all_flows_present')
         ck.explain('instance:all_classes_export_ok')
-    if any_key('hang:'):
+    if any_key('hang:', 'copy-raised:', 'raised:', 'kv-raised:', 'instance-raised:', 'instance-collapse-raised:', 'operator-raised:'):
         ck.explain('phase:')
+        # a translator that failed closed on a loop / statement it does not know, while the search shows that the code in
+        # front of it does not return or raises: the failing input is the explanation
+        ck.explain('translate:CopyCensus_gen')
     if any_key('shared-mutable:', 'mutation-visible:'):
         ck.explain('certificate:export_ok')
     if any_key('shared-mutable:', 'mutation-visible:', 'copy-incomplete:'):
